@@ -3,6 +3,7 @@ package engine
 import (
 	"crypto/sha256"
 	"fmt"
+	"github.com/nspcc-dev/neofs-contract/contracts/container/containerconst"
 	"sort"
 	"strings"
 
@@ -316,7 +317,7 @@ func (d *CntDriver) Step(x *Exec, n *Node, i int) StepResult {
 	}
 	// ---- read API vs model ----
 	rd := func(method string, args ...any) Obs { return w.Read(next, nn.H, nn.TS, h, method, args...) }
-	notFound := func(o Obs) bool { return !o.Halt && strings.Contains(o.Fault, "container does not exist") }
+	notFound := func(o Obs) bool { return !o.Halt && strings.Contains(o.Fault, containerconst.NotFoundError) }
 	var liveAll []string
 	liveBy := map[int][]string{}
 	for j := 0; j < 4; j++ {
